@@ -33,6 +33,10 @@ variable (s : State) (a : Nat) (l : List Nat)
   unfold setHostsForAddr; split <;> first | rfl | (split <;> rfl)
 @[simp] theorem setHosts_pidx : (setHostsForAddr s a l).pidx = s.pidx := by
   unfold setHostsForAddr; split <;> first | rfl | (split <;> rfl)
+@[simp] theorem setHosts_rs : (setHostsForAddr s a l).rs = s.rs := by
+  unfold setHostsForAddr; split <;> first | rfl | (split <;> rfl)
+@[simp] theorem setHosts_rstate (h : Nat) : (setHostsForAddr s a l).rstate h = s.rstate h := by
+  simp [State.rstate]
 @[simp] theorem setHosts_next : (setHostsForAddr s a l).next = s.next := by
   unfold setHostsForAddr; split <;> first | rfl | (split <;> rfl)
 @[simp] theorem setHosts_obj (h : Nat) : (setHostsForAddr s a l).obj h = s.obj h := by
